@@ -381,8 +381,8 @@ def check_lazy(case, rec):
     rec.nontrivial(len(case["a"]["coords"]) >= 1 and (case["a"]["active"] is not None or ida != idb))
 
 
-PARTS = [Part("tensors", cases(), check, n_quick=2500, n_thorough=8000),
-         Part("lazy", lazy_cases(), check_lazy, n_quick=1500, n_thorough=5000)]
+PARTS = [Part("tensors", cases(), check, n_quick=2500, n_thorough=25000),
+         Part("lazy", lazy_cases(), check_lazy, n_quick=1500, n_thorough=15000)]
 
 
 def _pin_swap_shape():
